@@ -236,15 +236,39 @@ impl C16 {
             let mut t = open(&path, cfg)?;
             let mut m = Model { tree: IdealTree::new(DEPTH), meta: vec![] };
             fault::arm(k, fault::MODE_ERROR_ONCE);
+            // positions / metadata whose value is not determined after the failed operation
             let mut failed_targets: Vec<u64> = vec![];
             let mut meta_uncertain = false;
             let mut fired_at: Option<usize> = None;
             for (i, op) in hist.iter().enumerate() {
+                if fired_at.is_some() {
+                    // after the failure the history goes on with the operations whose effect does not depend on
+                    // the undetermined part (explicit positions, metadata, flush): what they acknowledge must
+                    // survive too, and a retry must really write
+                    let independent = matches!(op, Op::T(TreeOp::Set(..)) | Op::T(TreeOp::Range(..)) | Op::Meta(_) | Op::Flush);
+                    if !independent {
+                        continue;
+                    }
+                    match apply(&mut t, op) {
+                        R::Ok => {
+                            m.step(op);
+                            let hw = m.tree.hwm;
+                            failed_targets.retain(|p| !op.targets(hw).contains(p));
+                            if matches!(op, Op::Meta(_)) {
+                                meta_uncertain = false;
+                            }
+                        }
+                        R::Err(_) => {}
+                        R::Panic(p) => out.push(Discrepancy { key: format!("C16/fault/{}/panic-after-failure", opname(op)), case: case.clone(), detail: format!("{} after a failed operation: {p}", op.to_json()) }),
+                    }
+                    continue;
+                }
                 let before = fault::fired();
                 let r = apply(&mut t, op);
                 let fired = fault::fired() > before;
                 if fired {
                     fired_at = Some(i);
+                    fault::disarm();
                     match &r {
                         R::Err(_) => {}
                         R::Ok => out.push(Discrepancy { key: format!("C16/fault/{}/failure-not-reported", opname(op)), case: case.clone(), detail: format!("storage operation {k} failed during {} but the call returned Ok", op.to_json()) }),
@@ -252,7 +276,7 @@ impl C16 {
                     }
                     failed_targets = op.targets(m.tree.hwm);
                     meta_uncertain = matches!(op, Op::Meta(_));
-                    break;
+                    continue;
                 }
                 match r {
                     R::Ok => m.step(op),
@@ -264,10 +288,11 @@ impl C16 {
             if fired_at.is_none() {
                 return Ok(()); // k beyond the operations of this history
             }
-            // a successful flush, then close and reopen: everything acknowledged before must be there
+            // a successful flush, then close and reopen: everything acknowledged must be there
             if apply(&mut t, &Op::Flush) != R::Ok {
                 return Err("flush after the failed operation failed although no fault is armed".into());
             }
+            let before_close = observe(&t)?;
             drop(t);
             let t2 = match guard(|| open(&path, cfg)) {
                 Ok(Ok(t)) => t,
@@ -275,20 +300,31 @@ impl C16 {
                 Err(p) => { out.push(Discrepancy { key: "C16/fault/reopen-panics".into(), case: case.clone(), detail: p }); return Ok(()); }
             };
             let after = observe(&t2)?;
+            let fop = opname(&hist[fired_at.unwrap()]);
             for i in 0..(1u64 << DEPTH) {
                 if failed_targets.contains(&i) {
                     continue;
                 }
                 if after.leaves[i as usize] != m.tree.leaf(i) {
-                    out.push(Discrepancy { key: "C16/fault/acknowledged-update-lost".into(), case: case.clone(), detail: format!("position {i}: acknowledged value {} but {} after reopen (fault during {})", m.tree.leaf(i), after.leaves[i as usize], hist[fired_at.unwrap()].to_json()) });
+                    out.push(Discrepancy { key: format!("C16/fault/{fop}/acknowledged-update-lost"), case: case.clone(), detail: format!("position {i}: acknowledged value {} but {} after reopen (fault during {})", m.tree.leaf(i), after.leaves[i as usize], hist[fired_at.unwrap()].to_json()) });
                     break;
                 }
             }
             if after.hwm < m.tree.hwm {
-                out.push(Discrepancy { key: "C16/fault/leaf-count-lost".into(), case: case.clone(), detail: format!("leaves_set {} after reopen, {} were acknowledged", after.hwm, m.tree.hwm) });
+                out.push(Discrepancy { key: format!("C16/fault/{fop}/leaf-count-lost"), case: case.clone(), detail: format!("leaves_set {} after reopen, {} were acknowledged", after.hwm, m.tree.hwm) });
             }
             if !meta_uncertain && after.meta != m.meta {
-                out.push(Discrepancy { key: "C16/fault/metadata-lost".into(), case: case.clone(), detail: format!("metadata {:?} after reopen, {:?} acknowledged", after.meta, m.meta) });
+                out.push(Discrepancy { key: format!("C16/fault/{fop}/metadata-lost"), case: case.clone(), detail: format!("metadata {:?} after reopen, {:?} acknowledged", after.meta, m.meta) });
+            }
+            // whatever the tree showed before closing (after the successful flush) is what reopening must show
+            if before_close.leaves != after.leaves {
+                out.push(Discrepancy { key: format!("C16/fault/{fop}/leaves-before-close-differ-after-reopen"), case: case.clone(), detail: format!("leaves before closing {:?}, after reopening {:?}", before_close.leaves, after.leaves) });
+            }
+            if before_close.meta != after.meta {
+                out.push(Discrepancy { key: format!("C16/fault/{fop}/metadata-before-close-differs-after-reopen"), case: case.clone(), detail: format!("metadata() before closing {:?}, after reopening {:?}", before_close.meta, after.meta) });
+            }
+            if before_close.root != after.root || before_close.hwm != after.hwm {
+                out.push(Discrepancy { key: format!("C16/fault/{fop}/root-or-leaf-count-before-close-differs-after-reopen"), case: case.clone(), detail: format!("root {} / leaf count {} before closing, root {} / leaf count {} after reopening", before_close.root, before_close.hwm, after.root, after.hwm) });
             }
             Ok(())
         })();
